@@ -154,6 +154,7 @@ class AirTouchSocket(Generic[comms.Hdr]):
 
         self.is_open = False
         self.is_connected = False
+        self._connecting = False
 
         self._background_tasks: set[asyncio.Task[Any]] = set()
 
@@ -293,11 +294,14 @@ class AirTouchSocket(Generic[comms.Hdr]):
         task.add_done_callback(discard_task)
 
     async def _connect(self) -> None:
-        if self.is_connected:
-            _LOGGER.debug("_connect ignored. Already connected")
+        if self.is_connected or self._connecting:
+            _LOGGER.debug("_connect ignored. Already connected or connecting")
             return
 
         _LOGGER.debug("Attempting to open connection to %s:%d", self.host, self.port)
+        # Only one connection attempt may be in progress at a time, otherwise
+        # overlapping attempts would each open (and leak) a connection.
+        self._connecting = True
         try:
             self._reader, self._writer = await asyncio.open_connection(
                 host=self.host, port=self.port
@@ -313,6 +317,8 @@ class AirTouchSocket(Generic[comms.Hdr]):
             self._schedule(self._read())
         except OSError as ex:
             _LOGGER.debug("Unable to connect. Will try again later. Reason: %s", ex)
+        finally:
+            self._connecting = False
 
         if not self.is_connected:
             # Connection failed, so retry after a small delay
